@@ -566,8 +566,8 @@ def hop_docstring_example(ctx):
 
 def run(ctx):
     import femio  # noqa
-    n_knn = ctx.n(36, 220)
-    n_combo = ctx.n(10, 24)
+    n_knn = ctx.n(36, 150)
+    n_combo = ctx.n(10, 16)
     n_haus = ctx.n(14, 90)
     n_hop = ctx.n(12, 80)
     for name, obj in C.corpus_cases(PROP):
